@@ -7,7 +7,7 @@ timeout 3000 make -j16 2>&1 | grep -v "^COQDEP\|^COQC\|Not a truly recursive" ||
 test -f model/Interp.vo
 mkdir -p /verif/build && cd /verif/build
 if [ ! -f tsmodel ] || [ ../coq/model/Interp.vo -nt tsmodel ] || [ ../ocaml/driver.ml -nt tsmodel ] || [ ../coq/extract/Extract.v -nt tsmodel ]; then
-  timeout 600 coqc -Q ../coq/model TS ../coq/extract/Extract.v >/dev/null
+  timeout 600 coqc -Q ../coq/model TS -Q ../coq/gen TS ../coq/extract/Extract.v >/dev/null
   cp ../ocaml/driver.ml .
   timeout 600 ocamlfind ocamlopt -O2 -w -a tsmodel.mli tsmodel.ml driver.ml -o tsmodel
 fi
